@@ -271,7 +271,9 @@ def check_xmap(prog, rep):
         rep.saw(f)
         txt = dump(f.node)
         sts = [dump(n.value) for n in ast.walk(f.node) if isinstance(n, ast.Assign) and isinstance(n.value, ast.IfExp) and "len(l)" in dump(n.value.test)]
-        if sts != [start]:
+        if not sts:
+            rep.unrec("R3-xmap", f.qualname, "level start `... if len(l) else 0` not found (another formulation of the index generator)")
+        elif sts != [start]:
             rep.violate("R3-xmap", f.qualname, "each level starts at %s, expected %s (%s parents)" % (sts, start, "repeated" if name == "triuix" else "distinct"), where(f), start, str(sts))
         elif ("len(l) == k - 1" in txt or "k - 1 == len(l)" in txt) and len(re.findall(r"for \w+ in range\(\w+, n\)", txt)) == 2 and "yield list(l)" in txt and "yield from recurse(l, n, k)" in txt and "yield from recurse([], n, k)" in txt:
             rep.ok("R3-xmap", f.qualname, "k nested levels over range(st, n), level start %s" % start)
